@@ -149,7 +149,9 @@ Step ==
          ackSpaces == {e.acks[i].sp + 1 : i \in {j \in DOMAIN e.acks : DOMAIN e.acks[j].newly # {}}}
          timerDue == e.kind = "Timeout" /\ P.tm # -1 /\ P.tm <= e.t
          lossDue == timerDue /\ LossTimes(P) # {}
-         ptoDue == timerDue /\ LossTimes(P) = {} /\ P.st < 2
+         \* (instants are logged in whole microseconds: a timer that reads the very instant of the
+         \* call may still be a fraction of a microsecond ahead - then either outcome is right)
+         ptoDue == timerDue /\ LossTimes(P) = {} /\ P.st < 2 /\ (P.tm < e.t \/ Q.ptoc = P.ptoc + 1)
          detSpaces == IF e.kind = "Rx" THEN ackSpaces ELSE IF lossDue THEN {LossSpace(P)} ELSE {}
          disc == {e.disc[i] + 1 : i \in DOMAIN e.disc}
          Rem(s) == {i \in DOMAIN e.rem : e.rem[i].sp + 1 = s}
